@@ -798,6 +798,47 @@ func inputStorage(x any, path string, seen map[uintptr]string) {
 	}
 }
 
+// disturb runs the SAME struct type through unmarshallers with other option sets (fill-default mode,
+// string values with and without opaque keys / from-array, a canonical key function) on an empty and
+// on the given document; the results are not judged — what they leave behind in the process is.
+func disturb(c Case) (out Out) {
+	out.ID = c.ID
+	out.Verdict = "scribbled"
+	tag := "json"
+	if c.Ctype != nil {
+		tag = *c.Ctype
+	}
+	rt, err := build(tag, &c.Type)
+	if err != nil {
+		out.Fail = "build type: " + err.Error()
+		return
+	}
+	var doc map[string]any
+	if x, err := toAny(c.Doc); err == nil {
+		doc, _ = x.(map[string]any)
+	}
+	sets := [][]mapping.UnmarshalOption{
+		{mapping.WithDefault()},
+		{mapping.WithStringValues()},
+		{mapping.WithStringValues(), mapping.WithOpaqueKeys(), mapping.WithFromArray()},
+		{mapping.WithOpaqueKeys()},
+		{mapping.WithCanonicalKeyFunc(strings.ToUpper)},
+		{},
+	}
+	for _, opts := range sets {
+		for _, m := range []map[string]any{{}, doc} {
+			if m == nil {
+				continue
+			}
+			func() {
+				defer func() { _ = recover() }()
+				_ = mapping.NewUnmarshaler(tag, opts...).Unmarshal(m, reflect.New(rt).Interface())
+			}()
+		}
+	}
+	return
+}
+
 func runCase(c Case) (out Out) {
 	return runStep(c, nil)
 }
@@ -982,6 +1023,9 @@ func runStep(c Case, sq *seqState) (out Out) {
 	}
 	if c.Mode == "scribble" {
 		return scribble(c)
+	}
+	if c.Mode == "disturb" {
+		return disturb(c)
 	}
 	tagKey := tagKeyOf(c.Mode)
 	if tagKey == "" {
